@@ -2,7 +2,7 @@
    it accepted, a serialisation variant, and what the implementation did: the data handed to the dumper, what the
    loader made of the emitted text, the re-parsed configuration; plus, for every str / float that was written, how
    PyYAML treats it on its own (written plain?  loaded as what?  text of the float). *)
-From JV Require Import Lib.Base Lib.Regex Model.TyVal Model.Scalar Model.C01Conf Model.C01Guard Gen.C01Resolvers.
+From JV Require Import Lib.Base Lib.Regex Model.TyVal Model.Scalar Model.C01Conf Model.C01Guard Gen.C01Tables.
 
 Record case := {
   c_leaves : list (leaf * val);
